@@ -23,6 +23,7 @@ from __future__ import annotations
 
 import math
 import os
+import re
 import shutil
 import tempfile
 import threading
@@ -51,15 +52,21 @@ SPEC = {
     'mode, scaled step values, parameters, directory before, crash point).'
   ),
   'trusted_base': [
-    'hand-written Lean model lean/Flax/Model/Ckpt.lean (tied to /repo by this correspondence run); helper lemmas lean/Flax/Proofs/Ckpt.lean',
+    'hand-written Lean models lean/Flax/Model/Ckpt.lean and lean/Flax/Model/NatSort.lean (tied to /repo by this correspondence run); helper lemmas lean/Flax/Proofs/{Ckpt,NatSort}.lean',
     'harness/props/c11.py (generators, fs interposition below flax/io.py, canonicalisation, Python policy reference), harness/compat.py',
     'A-FS: POSIX rename/unlink are atomic, listdir shows committed names only; rmtree of a directory is NOT atomic (modelled: damage, then remove); '
     'a crash is an exception (BaseException) raised before a mutating call of flax/io.py — no flax code between such calls touches the directory; '
     'thorough tier: a real os._exit from an audit hook in a child process before every Python-level file-system event of an Orbax save',
     'A-ORBAX: Checkpointer.save = [rmtree(destination) if force and it exists] ; [rmtree(stale temp dir)] ; mkdir temp dir ; write ; one atomic '
     'rename (read from the installed orbax 0.12.x; exercised through real saves, a cut right before its rename, and the thorough-tier kills)',
-    'A-NAT: natural_sort orders <prefix><repr(step)> by numeric value, the legacy temp file last, an Orbax temp dir right after its step, for '
-    'prefixes not ending in a sign, digit or dot (validated differentially on every run; violated for sign-ending prefixes = known finding F6)',
+    'A-NAT (reduced): for INTEGER steps the ordering of `<anything ending in an inert character><str(step)>` by step value, latest = max and '
+    '`<prefix>tmp` last are Lean theorems over the character-level model lean/Flax/Model/NatSort.lean of SIGNED_FLOAT_RE.split / maybe_num / sorted '
+    '(natural_sort_orders_by_value, natural_sort_latest_is_max, natural_sort_tmp_sorts_last; guard: last character before the number is not a digit, '
+    'sign, dot, e/E); that model is tied to the real regex exhaustively on short strings + random, and to the real natural_sort on name lists, on every run. '
+    'Still assumed: (a) float / exponent-notation steps — order of their printed names by value is validated differentially only (model-vs-real natural_sort '
+    'and sort-by-value oracle), no theorem; (b) A-FLOAT: float() is exact on int literals below 2**53 and monotone-injective on the reprs of distinct doubles '
+    '(no overflow/underflow); (c) \\d = ASCII digit (ASCII names); (d) Python sorted = stable sort by key (modelled as insertion sort), list/str comparison as modelled; '
+    '(e) str(int) = showInt (validated differentially). Violated guard = known finding F6 (theorem natural_sort_sign_prefix_misorders)',
   ],
   'assumptions': [
     'step values of one directory are numerically distinct (int 1 and float 1.0 are not mixed) and |int| < 2**53',
@@ -71,9 +78,11 @@ SPEC = {
     'single process (process_count == 1), no multi-process arrays, save_checkpoint (not save_checkpoint_multiprocess)',
   ],
   'model_partial': [
-    'retry_after_crash is proved for the legacy back-end; for Orbax the retry clause is tied by correspondence only (a step removed again by retention, or half deleted, makes "already committed" ambiguous)',
-    'the ordering of printed step names (regex tokenisation inside natural_sort, float parsing) is assumption A-NAT, not a theorem: the model keeps final names sorted by step value',
-    'crash_safe_orbax carries the hypothesis InPlaceFree (see assumptions); crash_safe_legacy has none',
+    'order of printed step names: proved from a character-level model of natural_sort for integer steps only (natural_sort_orders_by_value); for float / '
+    'exponent-notation steps it remains assumption A-NAT(a), validated differentially; float() itself is A-FLOAT',
+    'the directory model keeps final names sorted by step VALUE; listing_is_natural_sort composes it with the NatSort model (what natural_sort returns on the '
+    'printed names, in any listdir order, is the model listing; its last element is latest) — for integer steps only',
+    'crash_safe_orbax carries the hypothesis InPlaceFree (see assumptions; finding F15 shows it is needed); crash_safe_legacy and both retry theorems have none',
   ],
 }
 
@@ -1146,6 +1155,84 @@ def check_natural_sort(ctx, rng, n_lists):
 
 
 # ------------------------------------------------------------------------------------------------
+# the tokeniser of natural_sort: Lean character-level model against the real regex / natural_sort
+# ------------------------------------------------------------------------------------------------
+
+TOK_ALPHABET = ['a', '_', '-', '+', '.', 'e', 'E', '0', '1', '9']
+
+
+def check_tokeniser(ctx, drv, rng, thorough):
+  import itertools
+
+  # (a) exhaustive small scope + random longer strings: SIGNED_FLOAT_RE.split
+  maxlen = 5 if thorough else 4
+  strs = [''.join(t) for n in range(0, maxlen + 1) for t in itertools.product(TOK_ALPHABET, repeat=n)]
+  wide = TOK_ALPHABET + ['5', '7', 'x', '/', 'k', 'p', 't', ' ']
+  for _ in range(40000 if thorough else 4000):
+    strs.append(''.join(rng.choice(wide) for _ in range(rng.randrange(5, 16))))
+  ctx.extra['tokeniser_exhaustive_scope'] = f'all strings of length <= {maxlen} over {"".join(TOK_ALPHABET)!r}'
+  for i in range(0, len(strs), 20000):
+    chunk = strs[i : i + 20000]
+    out = drv.run([('tokens', [chunk])])
+    if out[0][0] != 'ok':
+      raise InfraError(f'driver: {out[0]}')
+    for sname, mt in zip(chunk, out[0][1]):
+      want = cp.SIGNED_FLOAT_RE.split(sname)
+      got = [x[1] for x in mt]
+      kinds = [x[0] for x in mt]
+      ctx.case({'tok': sname}, nontrivial=len(want) > 1)
+      if got != want or kinds != ['t' if k % 2 == 0 else 'n' for k in range(len(mt))]:
+        ctx.disagreements_checked += 1
+        ctx.violation('model-mismatch-tokens', f'SIGNED_FLOAT_RE.split({sname!r}) = {want}, model tokens {mt}', {'kind': 'tokens', 's': sname}, concrete=False)
+        return
+  ctx.count('tokeniser', 'strings', len(strs))
+  # (b) str(int) against the model's printed step
+  ints = list(range(-1100, 1101)) + [rng.randrange(-(10**rng.randrange(1, 40)), 10 ** rng.randrange(1, 40)) for _ in range(500)]
+  out = drv.run([('show_int', [[str(n) for n in ints]])])
+  if out[0] != ('ok', [str(n) for n in ints]):
+    bad = [n for n, g in zip(ints, out[0][1] if out[0][0] == 'ok' else []) if str(n) != g][:3]
+    ctx.disagreements_checked += 1
+    ctx.violation('model-mismatch-showint', f'str(n) differs from the model showInt at {bad}', {'kind': 'showint', 'ints': bad}, concrete=False)
+  ctx.case({'showint': len(ints)}, nontrivial=True)
+  # (c) whole natural_sort: model (exact decimal values, stable insertion sort) against the real function, on name
+  #     lists with every kind of prefix (sign-, dot-, digit-, e-terminated ones too: the model must follow the code there)
+  prefixes = PREFIXES + ['ckpt-', 'run+', 'v.', 'v2', 'stage', '2e', 'a-b.', '', 'x_-', 'E', '1.e']
+  reqs, wants, cases = [], [], []
+  for _ in range(3000 if thorough else 400):
+    pfx = rng.choice(prefixes)
+    lits = list(gen_literals(rng, rng.randrange(2, 8)))
+    if rng.random() < 0.3:
+      lits = [str(rng.randrange(-30, 30)) for _ in range(rng.randrange(2, 8))]  # duplicates / ties allowed
+    names = [pfx + l for l in lits]
+    if rng.random() < 0.3:
+      names.append(pfx + 'tmp')
+    if rng.random() < 0.3:
+      names.append(pfx + lits[0] + _CONV.get('orbax_suffix', '.orbax-checkpoint-tmp'))
+    dirp = rng.choice(['', '/tmp/x', '/a1/b-2/c', '/tmp/tmpk3_9z', 'd.5'])
+    paths = [os.path.join(dirp, n) if dirp else n for n in names]
+    rng.shuffle(paths)
+    toks = [t for pth in paths for t in cp.SIGNED_FLOAT_RE.findall(pth)]
+    if any(abs(float(t)) > 1e300 or (abs(float(t)) < 1e-300 and any(ch in '123456789' for ch in re.split('[eE]', t)[0])) for t in toks):
+      ctx.count('tokeniser', 'natsort_skipped_float_range')
+      continue  # float overflow / underflow: outside the exact-decimal model of float() (A-FLOAT)
+    try:
+      w = cp.natural_sort(paths)
+    except Exception as e:
+      w = 'Exception:' + type(e).__name__
+    reqs.append(('natsort', [paths]))
+    wants.append(w)
+    cases.append({'kind': 'natsort-model', 'paths': paths})
+  outs = drv.run(reqs)
+  for o, w, c in zip(outs, wants, cases):
+    ctx.case(c, nontrivial=True)
+    if o != ('ok', w):
+      ctx.disagreements_checked += 1
+      ctx.violation('model-mismatch-natsort', f'natural_sort{c["paths"]} = {w}, model {o}', c, concrete=False)
+      return
+  ctx.count('tokeniser', 'natsort_lists', len(reqs))
+
+
+# ------------------------------------------------------------------------------------------------
 # F6: prefixes ending in a sign (known finding; only the ordering clause is evaluated on them)
 # ------------------------------------------------------------------------------------------------
 
@@ -1487,6 +1574,7 @@ def run(ctx):
       mark('orbax-kill')
     # (iii) natural sort
     check_natural_sort(ctx, rng, 1500 if not thorough else 30000)
+    check_tokeniser(ctx, drv, rng, thorough)
     check_sign_prefix(ctx, root, rng)
     mark('natsort+sign')
     # (iv) async
@@ -1565,6 +1653,16 @@ def _run_case(ctx, root, drv, obj):
 
     if got != sorted(paths, key=val):
       ctx.violation('natural-sort-order', f'natural_sort{paths} = {got}', case)
+  elif kind == 'tokens':
+    out = drv.run([('tokens', [[case['s']]])])
+    want = cp.SIGNED_FLOAT_RE.split(case['s'])
+    if out[0][0] != 'ok' or [x[1] for x in out[0][1][0]] != want:
+      ctx.violation('model-mismatch-tokens', f'split({case["s"]!r}) = {want}, model {out[0]}', case, concrete=False)
+  elif kind == 'natsort-model':
+    out = drv.run([('natsort', [case['paths']])])
+    want = cp.natural_sort(case['paths'])
+    if out[0] != ('ok', want):
+      ctx.violation('model-mismatch-natsort', f'natural_sort = {want}, model {out[0]}', case, concrete=False)
   elif kind == 'policy':
     out = drv.run([('policy', [case['keep'], str(case['every']), case['ovw'], str(case['s']), [str(x) for x in case['before']]])])
     want = [str(x) for x in py_policy(case['before'], case['s'], case['keep'], case['every'], case['ovw'])]
